@@ -134,6 +134,27 @@ impl Evil {
     }
 
     /// builds the frames of the configured class against the victim's current limits
+    /// the stream for which the evil side has received a STOP_SENDING (lowest id), provided the victim has not been sent a
+    /// RESET_STREAM for it yet
+    fn stopped_stream(&self) -> Option<u64> {
+        let evil_is_client = self.ep != 0;
+        let t = self.trace.lock().unwrap();
+        let mut stopped: Vec<u64> = vec![];
+        let mut reset: Vec<u64> = vec![];
+        for r in &t.recs {
+            if (r.ep == 0) == evil_is_client {
+                continue;
+            }
+            match &r.ev {
+                Ev::Rx { frames: Ok(fr), .. } => stopped.extend(fr.iter().filter_map(|f| if let WFrame::StopSending { id, .. } = f { Some(*id) } else { None })),
+                Ev::Tx { frames: Ok(fr), .. } => reset.extend(fr.iter().filter_map(|f| if let WFrame::ResetStream { id, .. } = f { Some(*id) } else { None })),
+                _ => {}
+            }
+        }
+        stopped.sort_unstable();
+        stopped.into_iter().find(|id| !reset.contains(id))
+    }
+
     fn build(&self) -> (Vec<u8>, Vec<u64>, String, Option<u64>) {
         let evil_is_client = self.ep != 0;
         let l = &self.victim.limits;
@@ -285,6 +306,19 @@ impl Evil {
                     codes.push(STREAM_LIMIT);
                 }
                 (out, codes, format!("final-size-{}|conflicting final size on stream {id} (variant {})", (v >> 1) % 8, (v >> 1) % 8), None)
+            }
+            EvilClass::AfterStopSending => {
+                // the stream the victim asked to stop (STOP_SENDING received by the evil side)
+                let Some(id) = self.stopped_stream() else { return (vec![], vec![], String::new(), None) };
+                let initial = if id & 2 == 0 { win_bidi } else { win_uni };
+                let limit = limit_of(id, initial);
+                // far beyond: more than a whole window above anything the victim can have granted without advertising it yet
+                let fin = limit + initial + l.data_window.unwrap_or(DEFAULT_WINDOW) + 1 + (v as u64) * 7919;
+                out.push(0x04);
+                varint(id, &mut out);
+                varint(3, &mut out);
+                varint(fin, &mut out);
+                (out, vec![FLOW, FINAL_SIZE, PROTO], format!("reset-far-beyond-limit|RESET_STREAM for stream {id} with final size {fin}, far beyond its limit {limit}, after the victim's application called stop_sending on the incomplete stream"), None)
             }
             EvilClass::WrongDirection => {
                 let what;
@@ -510,7 +544,12 @@ impl Interceptor for Evil {
             }
         }
         self.seen += 1;
-        if self.seen <= self.cfg.after as u32 {
+        if matches!(self.cfg.class, EvilClass::AfterStopSending) {
+            // the first packet after the victim's STOP_SENDING arrived (it would carry the honest RESET_STREAM)
+            if self.stopped_stream().is_none() {
+                return;
+            }
+        } else if self.seen <= self.cfg.after as u32 {
             return;
         }
         let (frames, permitted, what, offending_stream) = self.build();
